@@ -577,8 +577,100 @@ def run_async_iter(inp):
     return out
 
 
+# ---- op 8: real loopback sockets
+def run_real_recv(inp):
+    import fcntl
+    import struct
+    import termios
+    import time as _time
+    import realio
+    from easynetwork.clients.tcp import TCPNetworkClient
+    from easynetwork.lowlevel.api_sync.endpoints.stream import StreamEndpoint
+    from easynetwork.lowlevel.api_sync.transports.socket import SSLStreamTransport
+
+    _, n, bufsize, ncalls, T, spec, mode, extra = inp[:8]
+    T = iosim.sx_tmo(T)
+    pieces, ver = extra[0], extra[1]
+    stream = realio.chunk_bytes(spec if isinstance(spec, bytes) else tuple(spec))
+    proto = fixed_protocol(n)
+    out = []
+    if mode == 2:
+        import tlskit
+        a, b = realio.unix_pair()
+        sctx = tlskit.server_ctx(ver)
+
+        class TLSWriter(realio.Writer):
+            def run(self):
+                try:
+                    self.sock.settimeout(8.0)
+                    self.sock = sctx.wrap_socket(self.sock, server_side=True)
+                    pos = 0
+                    for k in self.pieces:
+                        if pos >= len(self.stream):
+                            break
+                        self.sock.sendall(self.stream[pos:pos + k])
+                        pos += k
+                    if pos < len(self.stream):
+                        self.sock.sendall(self.stream[pos:])
+                    self.sock.close()
+                except Exception as exc:  # noqa: BLE001
+                    self.error = exc
+
+        writer = TLSWriter(b, stream, pieces)
+        writer.start()
+        transport = SSLStreamTransport(a, tlskit.client_ctx(ver), 1.0, server_hostname="localhost", server_side=False,
+                                       handshake_timeout=10.0, shutdown_timeout=1.0, standard_compatible=False)
+        target = StreamEndpoint(transport, proto, max_recv_size=bufsize)
+        peer = b
+    else:
+        sock, peer = realio.tcp_pair()
+        writer = realio.Writer(peer, stream, pieces)
+        writer.start()
+        target = TCPNetworkClient(sock, proto, max_recv_size=bufsize, retry_interval=1.0)
+        if T == 0:
+            # a zero timeout is only deterministic once everything has arrived: wait for the kernel to hold it all
+            writer.join(10.0)
+            deadline = _time.monotonic() + 5.0
+            while _time.monotonic() < deadline:
+                avail = struct.unpack("i", fcntl.ioctl(sock.fileno(), termios.FIONREAD, b"\0\0\0\0"))[0]
+                if avail >= len(stream):
+                    break
+                _time.sleep(0.002)
+            _time.sleep(0.01)        # let the FIN be processed as well
+    try:
+        timeout = 10.0 if T is None else 0.0
+        if mode == 1:
+            it = target.iter_received_packets(timeout=None if T is None else 0.0)
+            fn = lambda: next(it)  # noqa: E731
+        else:
+            fn = lambda: target.recv_packet(timeout=timeout)  # noqa: E731
+        for _ in range(ncalls):
+            try:
+                with iosim.alarm(15.0):
+                    pkt = fn()
+                out.append([0, realio.digest(bytes(pkt))])
+            except StopIteration as exc:
+                out.append([iosim.exc_code(exc.__cause__) if exc.__cause__ is not None else 42])
+            except BaseException as exc:  # noqa: BLE001
+                if isinstance(exc, (KeyboardInterrupt, SystemExit)):
+                    raise
+                out.append([iosim.exc_code(exc)])
+    finally:
+        target.close()
+        writer.join(12.0)
+        try:
+            peer.close()
+        except Exception:
+            pass
+    if writer.is_alive() or writer.error is not None:
+        out.append([41])
+    return out
+
+
 def run_impl(inp):
     op = inp[0]
+    if op == 8:
+        return run_real_recv(inp)
     if op == 6:
         return run_retry_env(inp)
     if op == 7:
@@ -669,6 +761,17 @@ def oracle(inp):
         if code == 0 and wire != want:
             return "send_packet returned without writing the packet"
         return _budget_failure(T, waits, lockwaits, sels, _lock_of(lk), code, "send_packet")
+    if op == 8:
+        import realio
+        _, n, bufsize, ncalls, T, spec, mode, extra = inp[:8]
+        stream = realio.chunk_bytes(spec if isinstance(spec, bytes) else tuple(spec))
+        for i, o in enumerate(out):
+            if i < len(stream) // n:
+                if o != [0, realio.digest(stream[i * n:(i + 1) * n])]:
+                    return f"real sockets: call {i} did not return packet {i} (got {o}) although the whole stream arrives"
+            elif o[0] in (8, 9, 1):
+                return f"real sockets: call {i} after the end of the stream: code {o[0]} instead of end-of-stream"
+        return None
     if op == 6:
         _, T, ri, tau, spur = inp[:5]
         T = iosim.sx_tmo(T)
@@ -860,6 +963,20 @@ def cases(tier, rng, escalate):
                     continue
                 yield dict(input=[7, iosim.tmo_sx(T), list(arr)], tags=_tags(7, T, ["async-iter", f"nexts{k}"]),
                            nontrivial=any(d > 0 for d in arr))
+    # ---- op 8: real loopback sockets / real TLS, outcome + packet digests only
+    n8 = 60 if thorough else 24
+    for i in range(n8):
+        mode = [0, 1, 2, 0][i % 4]
+        T = 0 if (i % 4 == 3) else None
+        n = rng.choice([1, 3, 64, 1000])
+        k = rng.randint(0, 5)
+        extra_bytes = rng.choice([0, 0, 1, n - 1]) if n > 1 else 0
+        total = n * k + extra_bytes
+        spec = [rng.randrange(1, 2 ** 30), total]
+        bufsize = rng.choice([1, 7, 64, 4096, 16384]) if total < 2000 else rng.choice([64, 4096, 16384])
+        pieces = [rng.choice([1, 2, 5, 100, 1500, 8000]) for _ in range(rng.randint(1, 12))]
+        yield dict(input=[8, n, bufsize, k + 1, iosim.tmo_sx(T), spec, mode, [pieces, rng.choice([12, 13])]],
+                   tags=_tags(8, T, ["real", f"mode{mode}", "leftover" if extra_bytes else "exact"]), nontrivial=True)
     # ---- op 4 / 5: UDP client
     n4 = 1500 if thorough else 400
     for _ in range(n4):
